@@ -126,6 +126,10 @@ func c15History(kind string, rng *Rng, length int, tag string) {
 		rawPut := do(s.h, Req{Method: "PUT", Path: rawKey, Body: []byte("raw metadata"), Header: [][2]string{
 			{"Content-Disposition", "attachment; filename=\"caf\xe9.txt\""}, {"X-Amz-Meta-Author", "Andr\xe9"}, {"X-Amz-Meta-Plain", "ascii"}}})
 		rawBefore := do(s.h, Req{Method: "HEAD", Path: rawKey})
+		// likewise an object whose key is not valid UTF-8 (a Latin-1 file name), with ordinary metadata
+		rawKey2 := "/" + u.buckets[0] + "/caf%E9-" + tag + ".txt"
+		rawPut2 := do(s.h, Req{Method: "PUT", Path: rawKey2, Body: []byte("raw key"), Header: [][2]string{{"X-Amz-Meta-Colour", "colour-2"}, {"Content-Type", "text/x-demo"}}})
+		rawBefore2 := do(s.h, Req{Method: "GET", Path: rawKey2})
 		if err := s.Reopen(); err != nil {
 			emit(s.prop, "REOPENFAIL", hs(err.Error()))
 			break
@@ -139,6 +143,16 @@ func c15History(kind string, rng *Rng, length int, tag string) {
 				emit(s.prop, "BAD", hs("S:metadata-differs-across-restart "+msg))
 			}
 			do(s.h, Req{Method: "DELETE", Path: rawKey})
+		}
+		if rawPut2.Status == 200 {
+			rawAfter2 := do(s.h, Req{Method: "GET", Path: rawKey2})
+			msg := fmt.Sprintf("%s: an object whose key is not valid UTF-8 answers GET %d %q with %s before the restart and %d %q with %s after it", kind, rawBefore2.Status, rawBefore2.Body, metaField(rawBefore2.Header), rawAfter2.Status, rawAfter2.Body, metaField(rawAfter2.Header))
+			if rawBefore2.Status == rawAfter2.Status && string(rawBefore2.Body) == string(rawAfter2.Body) && metaField(rawBefore2.Header) == metaField(rawAfter2.Header) && rawBefore2.Header.Get("ETag") == rawAfter2.Header.Get("ETag") {
+				emit(s.prop, "GOOD", hs(msg))
+			} else {
+				emit(s.prop, "BAD", hs("S:object-differs-across-restart "+msg))
+			}
+			do(s.h, Req{Method: "DELETE", Path: rawKey2})
 		}
 		probe()
 		nontrivial(fmt.Sprint(tag, r))
